@@ -160,3 +160,28 @@ check('C13', 'exploration',
       'DESIGN.md §3 C13')
 for k in CHECKS:
     NOT_YET.pop(k, None)
+
+check('C18', 'exploration',
+      'exhaustive enumeration of small-alphabet tensors x every axis placement; definition-level loop oracles',
+      'All tensors over {0,1,i,1+i,2} (quick: reduced alphabets for the larger shapes) of shapes (K,D,F,T) in '
+      '{(2,1,1,2),(3,1,2,1),(2,2,1,2)} - which contain every tie and silence pattern - x every (source_axis, '
+      'sensor_axis) placement with positive and negative indices x keepdims, plus generic tensors with 1..4 axes: '
+      'IBM one-hot at a source of maximal pooled power and identical across layouts, Wiener-like/IRM in [0,1] summing '
+      'to one where the mixture has power, ICM*mixture = source, PSM = Re(ICM), eps-guarded masks finite on silence, '
+      'output axes follow the input axes; quantile and Lorenz masks against loop definitions on generic and '
+      'tie-laden inputs x axis choices x fractions x weights.',
+      'Quantile thresholds: points within 1e-9 of the threshold are at the discontinuity and only judged when '
+      '(n-1)p is an exact integer (q=+-0.5, odd n).',
+      'DESIGN.md §3 C18')
+check('C19', 'exploration',
+      'exhaustive ternary estimates for SI-SDR; complete option/permutation enumeration for SXR with brute-force selection oracle',
+      'SI-SDR on all 3^8 estimates in {-1,0,1}^8 against four integer references (zero-projection / zero-residual '
+      'cases included) and generic signals with leading axes, scale invariance both ways for c in {1e-6,1e-3,-1,2,1e6}; '
+      'output_sxr/input_sxr on integer and generic signals for K{1..4} x outputs/sensors {1..5}: values equal the '
+      'loop definition with the brute-force selection maximising captured power, 1/SDR=1/SIR+1/SNR, SDR<=min, common '
+      'scale invariance, SNR shift by exactly 20log10|c| and fixed SIR under image scaling, independence of ALL output '
+      'permutations, averaging options, dict/prefix forms; set_snr/get_snr round trip, inplace both ways.',
+      'Ties between output selections are skipped (counted).',
+      'DESIGN.md §3 C19')
+for k in CHECKS:
+    NOT_YET.pop(k, None)
